@@ -208,4 +208,6 @@ def run(index, tier="quick", seed=0) -> Result:
                     res.ok("EX-2", s.key)
     if nballs < 20:
         raise AnalysisError(f"only {nballs} ball properties enumerated (>= 20 confirmed)")
+    from ..parallel import report as _copy1
+    _copy1(res, index, lambda f: f['top'] in ('circumsphere', 'insphere', 'circumcircle', 'incircle', 'minimal_bounding_sphere', 'minimal_bounding_circle', 'minimal_centered_bounding_circle', 'maximal_centered_bounded_circle', 'minimal_centered_bounding_sphere', 'maximal_centered_bounded_sphere'))
     return res
